@@ -49,6 +49,20 @@ Theorem C20_checker_sound_interleaved : forall (m : hmap) (r1 r2 : loc),
 Proof. exact checker_sound_interleaved. Qed.
 Print Assumptions C20_checker_sound_interleaved.
 
+(* projection (non-interference in the classical sense): after any interleaving, each party sees exactly what it
+   would see had it run alone *)
+Theorem C20_checker_sound_projection : forall (m : hmap) (r1 r2 : loc),
+  no_shared_mutable m r1 r2 = true ->
+  forall g R1 R2, asteps (sem m, [r1], [r2]) (g, R1, R2) ->
+  (exists h, steps (sem m, [r2]) (h, R2) /\
+             (forall x, acc g R2 x -> h x = g x) /\
+             (forall r, In r R2 -> forall T (obs : heap -> loc -> T), local_obs obs -> obs h r = obs g r)) /\
+  (exists h, steps (sem m, [r1]) (h, R1) /\
+             (forall x, acc g R1 x -> h x = g x) /\
+             (forall r, In r R1 -> forall T (obs : heap -> loc -> T), local_obs obs -> obs h r = obs g r)).
+Proof. exact checker_sound_projection. Qed.
+Print Assumptions C20_checker_sound_projection.
+
 (* unfolding the graph to any depth is a local observation *)
 Theorem C20_unfold_is_local : forall n, local_obs (unfold n).
 Proof. exact unfold_local. Qed.
